@@ -13,7 +13,11 @@
 (* Clauses (weakest reading of the property text):                         *)
 (*   I_NeedsRequest   after a success, a lookup needs a ResolveNow request *)
 (*                    not already used to justify an earlier lookup        *)
-(*   I_MinInterval    ... and starts >= MinI after the successful one did  *)
+(*   I_MinInterval    ... and starts >= MinI after the successful          *)
+(*                    resolution COMPLETED ("after a successful resolution *)
+(*                    ... at least the minimum interval has passed"; the   *)
+(*                    code adds MinResolutionInterval to the time taken    *)
+(*                    after lookup() returned)                             *)
 (*   I_BackoffEarly   after the k-th consecutive failure the retry starts  *)
 (*                    no earlier than 0.8 * min(1s * 1.6^k, 120s)          *)
 (*   I_BackoffLate / I_RetryFollows   ... and no later than 1.2 * that     *)
@@ -49,8 +53,8 @@ LookupStart ==
   /\ credits' = IF lastOk = "ok" /\ credits > 0 THEN credits - 1 ELSE credits
   /\ Mark(closedAt >= 0, "I_NoneAfterClose", l)
   /\ Mark(lastOk = "ok" /\ credits = 0, "I_NeedsRequest", l)
-  /\ Mark(lastOk = "ok" /\ Ev.t < lastStart + MinI, "I_MinInterval", l)
-  /\ Mark(lastOk = "fail" /\ Ev.t - lastStart < LoMs(fails), "I_BackoffEarly", l)
+  /\ Mark(lastOk = "ok" /\ Ev.t < lastEnd + MinI, "I_MinInterval", l)
+  /\ Mark(lastOk = "fail" /\ Ev.t - lastEnd < LoMs(fails), "I_BackoffEarly", l)
   /\ Mark(lastOk = "fail" /\ Ev.t - lastEnd > HiMs(fails), "I_BackoffLate", l)
   \* a ResolveNow call in progress may have been consumed by this very lookup
   /\ rnOpen' = (IF rnOpen = "open" THEN "tainted" ELSE rnOpen)
